@@ -181,7 +181,7 @@ def has_quorum(ctx):
       doc='A4: candidacy increments the term once, votes for itself, asks every voter with its true last index/term; '
           'leader at once only with a majority of one; read-only nodes never start elections',
       assumptions=['A-CLOCK', 'universe'], trusted=['T-TRANSPORT'],
-      cases=[dict(role=r, readonly=ro) for r in (0, 1, 2) for ro in (False, True)],
+      cases=[dict(role=r, readonly=False) for r in (0, 1, 2)] + [dict(role=0, readonly=True)],   # I5: a node without address is always FOLLOWER
       canaries=[
           ('drop-selfnode-guard', lambda mod: mutate_function(mod, 'SyncObj._onTick', _mut_election_drop_selfnode), ['O18.1.readonly-never-candidate']),
           ('no-self-vote-reset', lambda mod: mutate_function(mod, 'SyncObj._onTick', _mut_votes_not_reset), ['A4.candidate-state']),
